@@ -8,7 +8,7 @@
    order; responses are relayed verbatim; failed lookups answer 503. *)
 From Coq Require Import List ZArith Lia Bool.
 From RecordUpdate Require Import RecordSet.
-From Sim Require Import Map Variant Current Kernel Queue Net Pcap HttpParse SimState Sim Apps HttpServerProofs.
+From Sim Require Import Map Variant Current Kernel Queue Net Pcap HttpParse SimState Sim Apps HttpServerProofs RxProofs ComposeProofs.
 Import ListNotations.
 Import RecordSetNotations.
 Local Open Scope Z_scope.
@@ -120,3 +120,12 @@ Example C18_example_forwarding :
     (* "GET /a?q HTTP/1.1\r\nx: y\r\nhost: host1\r\n\r\n" *)
     o = [71;69;84;32;47;97;63;113;32;72;84;84;80;47;49;46;49;13;10;120;58;32;121;13;10;104;111;115;116;58;32;104;111;115;116;49;13;10;13;10].
 Proof. eexists. vm_compute. repeat split; reflexivity. Qed.
+
+(* ---- composition with the concrete receiver (Proofs/ComposeProofs.v) ---- *)
+Theorem C18_proxy_forwards_a_prefix_of_the_client_stream :
+  forall sent evs, wf_sent sent -> Forall (ok_ev sent) evs -> forall v,
+  fold_left (feed (proxy_hdecide v) true) (rx_reads evs rx_init) (serve (proxy_hdecide v) true [] [])
+    = serve (proxy_hdecide v) true (snd (fold_left rx_step evs rx_init)) []
+  /\ exists rest, cstream sent = snd (fold_left rx_step evs rx_init) ++ rest.
+Proof. exact proxy_forwards_a_prefix_of_the_client_stream. Qed.
+Print Assumptions C18_proxy_forwards_a_prefix_of_the_client_stream.
